@@ -386,6 +386,64 @@ def o6(prog, rep):
     rep.check(len(cps) == 1 and len(ph) == 1 and inc.dominates(cps[0], ph[0]), "O6-notearly", "timerqueue_increase stores the new deadline, then re-sifts", inc.loc, "", function=inc.name, construct="increase")
 
 
+def o7_slotrange(prog, rep):
+    """The socket table is indexed by descriptor number, and a descriptor has a record exactly when its number is below the
+    table's size.  Relational (sa/poly.py) with the size as a ghost quantity that socketlist_getsize answers and a successful
+    socketlist_resize sets: every socketlist_get(S, i) in the registration, the cancellation and the table-growing helper is
+    made with i < size, and the cancellation refuses a descriptor as out of range (ENOENT on the size test) only when its
+    number is >= size -- a record that exists is looked at."""
+    from .. import poly
+    from ..poly import Lin
+    u = prog.unit("events/events_network.c")
+    SIZE = ("$tablesize",)
+
+    def post_getsize(A, call, st, cs):
+        r = Lin.var(("$ret", A.f.name, call.pos))
+        return list(cs) + poly.cons("==", r, Lin.var(SIZE))
+
+    def post_resize(A, call, st, cs):
+        r = Lin.var(("$ret", A.f.name, call.pos))
+        n = A.lin(call.arg(1), st)
+        ok = A._kill(list(cs), lambda v: v == SIZE) + poly.cons("==", r, Lin.const(0))
+        if n is not None:
+            ok = ok + poly.cons("==", Lin.var(SIZE), n)
+        return [ok, list(cs) + poly.cons("<=", r, Lin.const(-1))]
+    posts = {"socketlist_getsize": post_getsize, "socketlist_resize": post_resize}
+    grow = u.func("growsocketlist")
+    n = 0
+    for name in ("events_network_register", "events_network_cancel", "growsocketlist"):
+        f = u.func(name)
+        if f is None:
+            raise cdb.AnalysisBroken("anchor missing: %s" % name)
+        A = poly.Analysis(f, assume=[(">=", Lin.var(SIZE), Lin.const(0))], quiet={"socketlist_get", "socketlist_getsize", "socketlist_resize", "warn0", "libcperciva_warn", "init",
+                                                                                "events_mkrec", "events_freerec", "clearbit", "growpollfd", "events_network_selectstats_startclock",
+                                                                                "events_network_selectstats_stopclock", "growsocketlist"},
+                          post=posts, inline=({"growsocketlist": grow} if grow is not None and name != "growsocketlist" else None), unsigned_terms={SIZE}).run()
+        for c in f.calls("socketlist_get"):
+            st = A.state_before(c)
+            if st is None:
+                continue
+            n += 1
+            i = A.lin(c.arg(1), st)
+            rep.check(i is not None and A.holds(st, "<", i, Lin.var(SIZE)), "O7-slotrange", "%s in %s: the index is below the table's size" % (c.text[:40], name), c.where,
+                      "index %s, size $tablesize: not provably inside the table" % (i,), function=name, construct="slot-index")
+        if name == "events_network_cancel":
+            sp = ("v", f.params[0]["name"], f.params[0]["id"])
+            for e in f.all_elems():
+                if e.is_assign and e.op == "=" and norm(e.kid(0)) == ("*", ("call", "__errno_location")) and norm(e.kid(1)) == ("c", 2) and not any(m.startswith("warn") for m in e.macro):     # ENOENT
+                    at = [(op, L, R) for cond, truth in f.edge_conds(e) for op, L, R, _, _ in cond_atoms(cond, truth)]
+                    if any(op == "==" and R == ("c", 0) and L[0] == "*" for op, L, R in at):
+                        continue          # nothing registered in the slot
+                    n += 1
+                    st = A.state_before(e)
+                    rep.check(st is None or A.holds(st, ">=", Lin.var(sp), Lin.var(SIZE)), "O7-slotrange",
+                              "events_network_cancel refuses a descriptor as unknown only when its number is not below the table's size", e.where,
+                              "on this edge the descriptor may still be below the size: a registration that exists is reported as absent and stays in place",
+                              function=name, construct="cancel-range")
+    if n < 12:
+        rep.defer_broken("O7: fewer than 12 table accesses found in events_network.c")
+
+
 def run(tier):
     rep = report.Report("C04", tier,
         "Decided: take-and-clear in the three getters (O1), cancel leaves no slot pointing at a released record (O2), a single invoker "
@@ -405,6 +463,7 @@ def run(tier):
         o1_o2(prog, rep)
         o3(prog, rep)
         o4_o5(prog, rep)
+        o7_slotrange(prog, rep)
         o6(prog, rep)
         # handle consistency of the timer heap: a stale handle makes cancel remove the wrong timer, so a cancelled
         # registration's callback runs (rules shared with C13)
@@ -413,6 +472,7 @@ def run(tier):
         c13.h2_h3(prog, rep)
         c13.h4(prog, rep)
         c13.h5(prog, rep)
+        c13.h7_keychange(prog, rep)
         # a registration that failed must leave nothing registered (no slot, no pollfd entry): shared with C14
         from . import c14
         c14.register_atomic_rule(prog, rep)
